@@ -46,7 +46,9 @@ NS = 5
 SLOTS = ("x", "xc", "y", "s", "w")
 # integer / float32 / "integer + 0.25" versions of x: same shape, other dtype (a memo keyed on a buffer that keeps the dtype
 # of the first array it saw would confuse xq with xi)
-FORM_SLOTS = ("xi", "xq", "xf")
+# "p1": one point; "xr": N rows all equal to that point (sizes at the boundary: a comparison that broadcasts would take
+# one for the other)
+FORM_SLOTS = ("xi", "xq", "xf", "p1", "xr")
 
 
 # ------------------------------------------------------------------------------------------------
@@ -319,7 +321,7 @@ class Letter(object):
             w[6] = self.centres[0]
         # "xi" / "xf": the same points as integer and single-precision arrays (a batched path that allocates its
         # output with the input's dtype would truncate them)
-        self.pool0 = {"x": x, "xc": x * (1 + 1e-7), "y": y, "s": x[:NS].copy(), "w": w, "xi": np.round(x).astype(np.int64), "xf": x.astype(np.float32), "xq": np.round(x) + 0.25}
+        self.pool0 = {"x": x, "xc": x * (1 + 1e-7), "y": y, "s": x[:NS].copy(), "w": w, "xi": np.round(x).astype(np.int64), "xf": x.astype(np.float32), "xq": np.round(x) + 0.25, "p1": x[:1].copy(), "xr": np.repeat(x[:1], len(x), axis=0)}
         self.alt = alt
         for k, v in self.pool0.items():
             if k != "w" and self.is_pwa and self.ref(v)[0] != "ok":
